@@ -928,3 +928,11 @@ func OneClassName() map[string]string {
 	return map[string]string{"AcctV1": "com.bank.Account", "AcctV2": "com.bank.Account", "AcctBad": "com.bank.Account",
 		"IntFields": "com.bank.Ints", "IntFieldsWide": "com.bank.Ints"}
 }
+
+// InFirst / OutFirst: a pointer to the FIRST field of the struct that holds it (same address, same kind, another
+// type). Interior pointers are not part of the random zoo; this one is the witness of a repaired defect.
+type InFirst struct{ X int32 }
+type OutFirst struct {
+	In InFirst
+	P  *InFirst
+}
